@@ -414,4 +414,37 @@ Section PopFacts.
       destruct (or_climb_ok _ _ _ _ _ _ H2 Hn0 E) as (A & B & C). split; [exact A|]. split; [assumption|].
       split; [eapply is_suffix_trans; [exact B|apply is_suffix_cons]|lia].
   Qed.
+
+  (* ---------- downhill simplex ---------- *)
+  Theorem vec_iterate_ok xs t p t' c : length xs = length sp -> Forall (fun x => x <> XNaN) xs -> nan_free t ->
+    vec_iterate sp cons fuel xs t = Ok (p, t', c) -> emit p /\ is_suffix t' t /\ 0 < c.
+  Proof.
+    intros Hl Hx Hn H. unfold vec_iterate in H.
+    destruct (conv2pos sp cons fuel xs t 0) as [[[q t1] c1]|] eqn:E; cbn [bind] in H; [|discriminate].
+    destruct (conv2pos_ok sp cons Hdims _ _ _ _ _ _ _ Hl Hx E) as (Hb & S1 & C1).
+    assert (Hn1 : nan_free t1) by (eapply nan_free_suffix; eassumption).
+    destruct (or_climb_ok _ _ _ _ _ _ Hb Hn1 H) as (A & B & C). split; [exact A|]. split; [eapply is_suffix_trans; eassumption|lia].
+  Qed.
+
+  (* ---------- Powell / DIRECT ---------- *)
+  Lemma in_box_b_true (s : space) p : in_box_b s p = true -> in_box s p.
+  Proof.
+    unfold in_box. revert p. induction s as [|dim s IH]; intros [|z p] H; cbn in H; try discriminate; [constructor|].
+    apply andb_prop in H. destruct H as [H1 H2]. apply andb_prop in H1. destruct H1 as [A B].
+    constructor; [lia|apply IH; exact H2].
+  Qed.
+
+  Theorem cand_iterate_ok cand t p t' c : in_box_b sp cand = true -> nan_free t ->
+    cand_iterate sp cons fuel cand t = Ok (p, t', c) -> emit p /\ is_suffix t' t /\ 0 < c.
+  Proof.
+    intros Hb Hn H. destruct (or_climb_ok _ _ _ _ _ _ (in_box_b_true _ _ Hb) Hn H) as (A & B & C). split; [exact A|]. split; [exact B|lia].
+  Qed.
+
+  Theorem powell_iterate_ok cand t p t' c : in_box_b sp cand = true -> nan_free t ->
+    powell_iterate sp cons fuel rrp cand t = Ok (p, t', c) -> emit p /\ is_suffix t' t.
+  Proof.
+    intros Hb Hn H. unfold powell_iterate in H.
+    apply (rand_iter_ok emit _ _ _ _ _ _ (fun q Hq => Hq)) in H; [exact H| |exact Hn].
+    intros t0 p0 t0' c0 Hn0 H0. destruct (or_climb_ok _ _ _ _ _ _ (in_box_b_true _ _ Hb) Hn0 H0) as (A & B & _). split; assumption.
+  Qed.
 End PopFacts.
